@@ -67,6 +67,8 @@ def impl(case):
         world = [np.array(x, dtype=float) for x in world]
         for i in case.get("nan_at", []):
             world[0][i] = np.nan
+        for i, sgn in case.get("inf_at", []):
+            world[0][i] = sgn * np.inf
         res = {"world": [[_c(v) for v in x] for x in world]}
         kw = {}
         if case["fill"] is not None:
@@ -123,6 +125,11 @@ def oracle(case, res):
     for k in range(npts):
         p = case["pix"][k]
         got = [res["inv"][i][k] for i in range(len(p))]
+        if k in [i for i, _s in case.get("inf_at", [])]:
+            # an infinite world coordinate has no pixel position in the image
+            if "in_image" in res and res["in_image"][k]:
+                out.append(("in_image_inf", "in_image is True for a world point with an infinite coordinate (box %s)" % (box,)))
+            continue
         if k in case.get("nan_at", []):
             # a NaN world point has no pixel position: NaN, or the fill value when masking is on, are both accepted
             if case["path"] == "iterative" and any(g != "nan" for g in got) and not (masking and got == [_c(fill)] * len(p)):
@@ -169,7 +176,7 @@ def _d(s):
 
 
 def request(case, res):
-    if "inv_err" in res:
+    if "inv_err" in res or case.get("inf_at"):
         return None
     n = len(case["pix"][0])
     rows = []
@@ -238,11 +245,17 @@ def gen(rng, tier):
                     pt.append(rng.choice([lo - rng.randint(1, 30) / 4, hi + rng.randint(1, 30) / 4]))
             pts.append(pt)
         yield {"wcs": "affine", "path": "analytic", "ab": ab, "box": box, "pix": pts, "fill": rng.choice([None, None, -1.0, 0.0, float("inf")]),
-               "withbb": rng.choice([None, None, True, False]), "nan_at": [rng.randrange(7)] if rng.random() < 0.4 else []}
+               "withbb": rng.choice([None, None, True, False]), "nan_at": [rng.randrange(7)] if rng.random() < 0.4 else [],
+               "inf_at": [[rng.randrange(7), rng.choice([-1, 1])]] if rng.random() < 0.15 else []}
     for _ in range(30 if q else 1200):
         distort = rng.random() < 0.7
         p = S.gen_params(rng, distortion=distort, aligned=True)
         p["scale"] = 10 ** rng.uniform(-5, -4)
+        if rng.random() < 0.4:
+            # a clearly non-square box owned by the astropy model ('C' order): axis mix-ups in the masking become visible
+            (bx0, bx1), (by0, by1) = p["bbox"]
+            p["bbox"] = [[bx0, bx1], [by0, by0 + 0.55 * (by1 - by0)]] if rng.random() < 0.5 else [[bx0, bx0 + 0.55 * (bx1 - bx0)], [by0, by1]]
+            p["bbox_on_model"] = True
         (x0, x1), (y0, y1) = p["bbox"]
         pts = []
         for _p in range(6):
